@@ -8,7 +8,8 @@ M: TLC checks, for every collection tree / macro call site within the bound, tha
    level; guards the sensitivity of the specification).
 G: every collection is printed with the statement's prediction and
    * interpreted into the real types by harness/vh_core/src/bin/c02_props.rs (type-erased
-     nesting of any depth + ~1000 stamped statically typed shapes), and
+     nesting of any depth + ~1000 stamped statically typed shapes), once per key storage
+     form (KeyForms of Props.tla), and
    * for macro call sites turned into a generated Rust program of real props!/evt!/emit!
      call sites (lib/gen_c02_sites.py -> harness/vh_core/src/gen/), compiled and run.
 """
@@ -51,6 +52,30 @@ def extract_cases(tlc_out, dest):
         for l in lines:
             f.write(l + "\n")
     return len(lines)
+
+
+def merge_reports(reps):
+    """Reports of the shards of one case file -> one report."""
+    out = {"cases": 0, "checks": 0, "total_mismatches": 0, "mismatches": [], "extra": {}}
+    for r in reps:
+        out["cases"] += r["cases"]
+        out["checks"] += r["checks"]
+        out["total_mismatches"] += r.get("total_mismatches", len(r["mismatches"]))
+        out["mismatches"] += r["mismatches"]
+        for k, v in r["extra"].items():
+            cur = out["extra"].get(k)
+            if isinstance(v, dict):
+                cur = cur or {}
+                for kk, vv in v.items():
+                    cur[kk] = cur.get(kk, 0) + vv
+                out["extra"][k] = cur
+            elif isinstance(v, list):
+                out["extra"][k] = (cur or []) + v
+            elif k == "static_shapes":
+                out["extra"][k] = v
+            else:
+                out["extra"][k] = (cur or 0) + v
+    return out
 
 
 INVS = "GetIsFirst DedupOnceFirst UniqueClaimSound BreakStops EnumIsSpec"
@@ -138,9 +163,20 @@ def run(ctx):
     bindir = ctx.cargo_build("vh_core", bins=["c02_props", sites_bin])
     reports = []
     if n_trees:
-        rp = os.path.join(ctx.out, "report-trees.json")
-        ctx.run_harness(os.path.join(bindir, "c02_props"), [trees, rp])
-        reports.append(("trees", json.load(open(rp))))
+        # every collection is replayed under six key storage forms: four processes side by side
+        # (round-robin shards; the large collections are spread evenly)
+        nsh = 4 if n_trees >= 64 else 1
+        with open(trees, encoding="utf-8") as f:
+            lines = f.readlines()
+        shards = []
+        for i in range(nsh):
+            sp = os.path.join(ctx.out, "cases-trees.%d.ndjson" % i)
+            with open(sp, "w", encoding="utf-8") as g:
+                g.writelines(lines[i::nsh])
+            shards.append((sp, os.path.join(ctx.out, "report-trees.%d.json" % i)))
+        with ThreadPoolExecutor(max_workers=nsh) as ex:
+            list(ex.map(lambda a: ctx.run_harness(os.path.join(bindir, "c02_props"), [a[0], a[1]]), shards))
+        reports.append(("trees", merge_reports([json.load(open(rp)) for _, rp in shards])))
     if n_sites:
         rp = os.path.join(ctx.out, "report-sites.json")
         args = [sites, rp] + ([only_site] if only_site is not None else [])
@@ -153,7 +189,7 @@ def run(ctx):
         # three macros x three views
         ctx.cov["traces_validated_against_impl"] += rep["cases"]
         ctx.cov["impl_checks"] += rep["checks"]
-        for k in ("static_cases", "static_shapes", "ops_seen", "cases_of_another_ctxt_resolution"):
+        for k in ("static_cases", "static_shapes", "ops_seen", "cases_of_another_ctxt_resolution", "key_forms_seen"):
             if k in rep["extra"]:
                 ctx.cov[k] = rep["extra"][k]
         for d in rep["extra"].get("drift", []):
@@ -169,10 +205,19 @@ def run(ctx):
         ops = ctx.cov.get("ops_seen", {})
         missing = [o for o in ("and", "opt", "none", "ref", "box", "arc", "erased", "dedup", "asmap",
                                "pair", "arr2", "slice", "btree", "hash", "empty", "ctxt", "extent", "spanctxt", "span", "metric",
-                               "span_with", "metric_with")
+                               "span_with", "metric_with", "extentsrc",
+                               # the extent by its source: every ToExtent impl / carrier, every combination of bounds
+                               "extent:ts:-x", "extent:range_ts:xx", "extent:optrange:xx", "extent:optrange:x-",
+                               "extent:optrange:-x", "extent:optrange:--", "extent:opt:xx", "extent:ref:xx",
+                               "extent:span:xx", "extent:span_with:xx", "extent:metric:xx", "extent:metric_with:xx",
+                               "extent:event:xx", "extent:event_with:xx")
                    if not ops.get(o)]
         if missing:
             raise vlib.ToolError("vacuity: node kinds never built: %s" % missing)
+        forms = ctx.cov.get("key_forms_seen", {})
+        missing = [f for f in ("Literal", "StringKey", "SharedBuf", "StrRef", "StrOwned", "StrShared") if not forms.get(f)]
+        if missing:
+            raise vlib.ToolError("vacuity: key storage forms never used: %s" % missing)
     with open(trees, encoding="utf-8") as f:
         lines = f.readlines()
     if lines:
@@ -184,6 +229,11 @@ def run(ctx):
         ctx.sample(json.loads(lines[len(lines) // 2]))
     ctx.assumptions += [
         "values are distinct integers (which duplicate was returned is always observable); value typing is C19's subject",
+        "keys are compared by text; every collection is replayed under each key storage form of Props.tla (KeyForms: an allocation per "
+        "key, owned Strings, slices of one shared buffer in which a key that is a prefix of another shares its start address and the "
+        "empty key is the zero-length slice at offset 0, Str::new_ref over that buffer, Str::new_owned, Str::new_shared; lookup keys "
+        "separate, from the same buffer, and - under every form, macro call sites included - every proper prefix cut from the front of "
+        "each key enumeration hands out); the statically typed shapes use the two `&'static str` forms",
         "the order inside a HashMap, a de-duplicated collection and a macro-built collection is unspecified (any permutation accepted); "
         "lookup must agree with the enumeration actually observed",
         "std's BTreeMap/HashMap lookup and iteration are trusted; the transcription of core::slice::binary_search_by is only used for "
@@ -195,7 +245,12 @@ def run(ctx):
         "value a snapshot keeps for a repeated key is C03's subject: every resolution is enumerated and the one the real snapshot shows "
         "is judged (get/enumeration agreement, dedup, unique claim)",
         "map views are also read through serde::Serialize (serde_json), sval::Value (sval_json), Display and Debug; each must yield "
-        "the pairs for_each yields, in that order (Display / Debug: the keys); ToExtent / Extent::len are X02's subject",
+        "the pairs for_each yields, in that order (Display / Debug: the keys), for p.as_map() and p.dedup().as_map() (every key once, "
+        "first value)",
+        "the Extent view is also built from every ToExtent source (Timestamp, Range<Timestamp>, Range<Option<Timestamp>> with every "
+        "combination of bounds, Option / & of an Extent) and from what Span / Metric / Event carriers hand out (new / with_extent); "
+        "which extent a half-open Range<Option<Timestamp>> converts to is X02's subject: `nothing` and `the given bound as a point` "
+        "are both enumerated and the one the real conversion shows is judged; Extent::len is X02's subject",
         "large collections (PropsBig.cfg: 21..200 properties, duplicate-key patterns) are a chosen family, not a product with the "
         "other node kinds",
         "bounded: %s | %s" % (vlib.cfg_header(os.path.join(vlib.SPEC, "Props_%s.cfg" % tier)),
